@@ -18,7 +18,7 @@ FUNCTIONS = ["ak.llparser.ListProds.complete_init", "ak.llparser.ListProds.gen_p
              "ak.llparser.MapProds._parse_kv_pair", "ak.llparser.ProdSequence.complete_init", "ak.llparser.ProdSequence.gen_productions", "ak.llparser.LLParser._process_seq_telement",
              "ak.llparser.StdCleanuper._cleanup", "ak.llparser.StdCleanuper._make_squash_data", "ak.llparser.LLParser.parse"]
 BOUNDS = {
-    "quick": {"templates": "8 legal ListProds option combinations (brackets / delimiter / allow_final_delimiter / optional), 4 MapProds combinations, ProdSequence",
+    "quick": {"templates": "8 legal ListProds option combinations (brackets / delimiter / allow_final_delimiter / optional), 4 bracketed + 2 bracket-less MapProds combinations, ProdSequence",
               "data": "outer container of <= 3 items from a pool of 10 values (words, empty / nested lists and maps up to depth 3, repeated map keys); trailing delimiter yes/no; absent container",
               "separators": "blank, newline, comment, minimal"},
 }
@@ -134,9 +134,10 @@ def _map_parser(opts):
     kw = {"allow_final_delimiter": opts["afd"]}
     if opts["optional"] is not None:
         kw["optional"] = opts["optional"]
+    br = opts.get("brackets", True)
     return L.LLParser(TOKENIZER, synonyms=dict(SYN), productions={
         "E": [("@", "OUTER", ";")],
-        "OUTER": L.MapProds("{", "WORD", ":", "VALUE", ",", "}", **kw),
+        "OUTER": L.MapProds("{" if br else None, "WORD", ":", "VALUE", ",", "}" if br else None, **kw),
         "VALUE": [("WORD",), ("LIST",), ("MAP",)],
         "LIST": L.ListProds("[", "VALUE", ",", "]"),
         "MAP": L.MapProds("{", "WORD", ":", "VALUE", ",", "}"),
@@ -211,15 +212,18 @@ def _run_list(parser, opts, items, trailing: bool, present: bool, sep: str) -> N
 def _run_map(parser, opts, pairs, trailing: bool, present: bool, sep: str) -> None:
     import ak.llparser as L
     toks = ["@"]
+    br = opts.get("brackets", True)
     if present:
-        toks.append("{")
+        if br:
+            toks.append("{")
         for i, (k, v) in enumerate(pairs):
             if i:
                 toks.append(",")
             toks += [k, ":"] + _tokens(v)
         if trailing:
             toks.append(",")
-        toks.append("}")
+        if br:
+            toks.append("}")
     toks.append(";")
     text = _join(toks, sep)
     what = f"map options {opts} text {text!r}"
@@ -275,8 +279,10 @@ def h_map(first: int, trailing: bool, present: bool, sep: int, shard=None) -> No
     reject_unless(-1 <= first < len(entries) and 0 <= sep < len(SEPS))
     if not present:
         reject_unless(first == -1 and not trailing)
-    first, trailing, present, sep = realize(first), realize(trailing), realize(present), realize(sep)
     opts = shard["opts"]
+    if not opts.get("brackets", True):
+        reject_unless(present)          # without brackets a map with no pairs IS the empty text: {} (there is no 'absent')
+    first, trailing, present, sep = realize(first), realize(trailing), realize(present), realize(sep)
     with concrete():
         parser = _map_parser(opts)
         if first == -1:
@@ -333,5 +339,8 @@ def jobs(tier: str) -> List[Job]:
     for i, o in enumerate(MAP_OPTS):
         tag = ("final" if o["afd"] else "nofinal") + ("+opt" if o["optional"] else "")
         js.append(Job(__name__, "h_map", shard={"opts": o, "n_max": 3}, budget_s=2400 if t else 110, label=f"map:{tag}", must_exhaust=True))
+    for afd in (True, False):
+        js.append(Job(__name__, "h_map", shard={"opts": {"afd": afd, "optional": None, "brackets": False}, "n_max": 3}, budget_s=2400 if t else 100,
+                      label=f"map:nobr+{'final' if afd else 'nofinal'}", must_exhaust=True))
     js.append(Job(__name__, "h_sequence", shard={"n_max": 6 if t else 5}, budget_s=600 if t else 100, label="sequence", must_exhaust=True))
     return js
